@@ -7,6 +7,7 @@ pub mod c10;
 pub mod c11;
 pub mod c16;
 pub mod c17;
+pub mod soup;
 
 use crate::runner::Scenario;
 
